@@ -17,11 +17,19 @@ EVID_SCHEMA = '/root/.vp/EVIDENCE.schema.json'
 
 
 def load_known():
-    try:
-        with open(KF_PATH) as f:
-            return json.load(f).get('findings', [])
-    except (OSError, ValueError):
-        return []
+    """known_findings.json plus one optional fragment per property under known_findings.d/ (all committed)."""
+    out = []
+    paths = [KF_PATH]
+    dd = os.path.join(VERIF, 'known_findings.d')
+    if os.path.isdir(dd):
+        paths += [os.path.join(dd, f) for f in sorted(os.listdir(dd)) if f.endswith('.json')]
+    for p in paths:
+        try:
+            with open(p) as f:
+                out += json.load(f).get('findings', [])
+        except (OSError, ValueError) as e:
+            sys.stderr.write('warning: cannot read %s: %s\n' % (p, e))
+    return out
 
 
 def _trunc(o, n=1500):
